@@ -232,3 +232,16 @@ pub fn fuzz_select<'a>(types: &'a [Ty], data: &'a [u8]) -> Option<(&'a Ty, &'a [
     let sel = u16::from_le_bytes([data[0], data[1]]) as usize;
     Some((&types[sel % types.len()], &data[2..]))
 }
+
+/// see `dynrec::read_fields_tolerantly`
+pub fn decode_tolerantly(ty: &Ty, bytes: &[u8]) -> Vec<String> {
+    live::reset_tls();
+    match ty {
+        Ty::Adt(d) => {
+            let _g = live::DeclGuard::push(d.clone());
+            let mut ctx = desert::DeserializationContext::new(bytes);
+            dynrec::read_fields_tolerantly(d, &mut ctx)
+        }
+        _ => vec!["not a declaration".into()],
+    }
+}
